@@ -35,6 +35,15 @@ Theorem C11_later_write_wins : forall mode filters (ops : list rop) id k v vt mv
   absd I d' i k' = if (i =? id) && list_eqb k k' then val_of mvt v else absd I d i k'.
 Proof. exact later_write_wins. Qed.
 
+(* in general: whatever history of writes, maintenance, deletions and reopens came before, EVERY later sequence of operations
+   acts on the recovered content exactly as on a reference map (accepted writes set their key, refused ones and all maintenance
+   change nothing, clears empty, ingestion overlays) — no recovered entry ever wins over a later write *)
+Theorem C11_after_any_history_operations_refine : forall mode (hist : list rop) (ops : list wop) I,
+  let d1 := fold_left rstep hist (db_init mode []) in
+  d_seqno (fold_left wstep ops d1) <= I ->
+  forall id k, absd I (fold_left wstep ops d1) id k = srun d1 ops (absd I d1) id k.
+Proof. exact history_then_ops_refine. Qed.
+
 Theorem C11_reads_agree_after_reopen : forall mode filters (ops : list rop) ks k I,
   let d := fold_left rstep ops (db_init mode filters) in
   In ks (d_kss d) ->
@@ -54,6 +63,7 @@ Theorem C11_example :
 Proof. exact reopen_example_reads. Qed.
 
 Print Assumptions C11_later_write_wins.
+Print Assumptions C11_after_any_history_operations_refine.
 Print Assumptions C11_reads_agree_after_reopen.
 Print Assumptions C11_counter_above_after_reopen.
 Print Assumptions C11_example.
